@@ -1,7 +1,7 @@
 (** Extraction of the C04 models (ExtrOcamlBasic only). *)
 From Coq Require Import ZArith List.
 From Coq Require Import ExtrOcamlBasic.
-From Webp Require Vp8.Vp8Bool Vp8.Vp8Tables Vp8.Vp8Syntax Vp8.Vp8Kernels Vp8.Vp8Recon Vp8.Vp8Filter Vp8.Vp8Spec Vp8.Vp8Upsample Vp8.Vp8BoolEnc Vp8.Vp8Rgb Vp8.Vp8GoReader Vp8.Vp8InlineCoeffs.
+From Webp Require Vp8.Vp8Bool Vp8.Vp8Tables Vp8.Vp8Syntax Vp8.Vp8Kernels Vp8.Vp8Recon Vp8.Vp8Filter Vp8.Vp8Spec Vp8.Vp8Upsample Vp8.Vp8BoolEnc Vp8.Vp8Rgb Vp8.Vp8GoReader Vp8.Vp8InlineCoeffs Vp8.Vp8FrameRT Vp8.Vp8TokenBuf.
 From Webp Require Conform.ConformFile.
 
 Separate Extraction
@@ -18,4 +18,6 @@ Separate Extraction
   Vp8.Vp8GoReader.gr_load Vp8.Vp8GoReader.gr_bit Vp8.Vp8InlineCoeffs.go_get_coeffs Vp8.Vp8Syntax.decode_block
   Vp8.Vp8Bool.read_bool
   Vp8.Vp8BoolEnc.bw_init Vp8.Vp8BoolEnc.bw_put Vp8.Vp8BoolEnc.bw_put_uniform Vp8.Vp8BoolEnc.bw_put_bits
-  Vp8.Vp8BoolEnc.bw_put_signed Vp8.Vp8BoolEnc.bw_finish Vp8.Vp8BoolAbs.rfc_bits Vp8.Vp8Bool.bd_init.
+  Vp8.Vp8BoolEnc.bw_put_signed Vp8.Vp8BoolEnc.bw_finish Vp8.Vp8BoolAbs.rfc_bits Vp8.Vp8Bool.bd_init
+  Vp8.Vp8BoolEnc.bool_encode Vp8.Vp8FrameRT.part_syms
+  Vp8.Vp8TokenBuf.session Vp8.Vp8TokenBuf.emit_part Vp8.Vp8TokenBuf.part_sel.
